@@ -170,46 +170,46 @@ Fixpoint ins_other (x : other) (l : list other) : list other :=
 Definition sort_others (l : list other) : list other := fold_right ins_other [] l.
 
 (* others with onset <= t (a prefix: the list is sorted) and the rest *)
-Fixpoint span_le (t : Z) (O : list other) : list other * list other :=
-  match O with
+Fixpoint span_le (t : Z) (Os : list other) : list other * list other :=
+  match Os with
   | [] => ([], [])
-  | o :: r => if o_onset o <=? t then let (a, b) := span_le t r in (o :: a, b) else ([], O)
+  | o :: r => if o_onset o <=? t then let (a, b) := span_le t r in (o :: a, b) else ([], Os)
   end.
 
-Fixpoint emit_others (O : list other) (last_t : Z) : list elem * Z :=
-  match O with
+Fixpoint emit_others (Os : list other) (last_t : Z) : list elem * Z :=
+  match Os with
   | [] => ([], last_t)
   | o :: r => let (es, t') := emit_others r (o_onset o) in
               (fb (o_onset o) last_t ++ oelem o :: es, t')
   end.
 
 (* returns the stream and the position after its last element *)
-Fixpoint mwv (v : Z) (N : list (note * bool)) (O : list other) (last_t lno : Z) : list elem * Z :=
+Fixpoint mwv (v : Z) (N : list (note * bool)) (Os : list other) (last_t lno : Z) : list elem * Z :=
   match N with
-  | [] => emit_others O last_t
+  | [] => emit_others Os last_t
   | (n, ch) :: r =>
-      let (O1, O2) := span_le (onset n) O in
-      let (es1, t1) := emit_others O1 last_t in
+      let (Os1, Os2) := span_le (onset n) Os in
+      let (es1, t1) := emit_others Os1 last_t in
       let t1' := if ch then lno else t1 in
-      let (es2, t2) := mwv v r O2 (onset n + ndur n) (onset n) in
+      let (es2, t2) := mwv v r Os2 (onset n + ndur n) (onset n) in
       (es1 ++ fb (onset n) t1' ++ ENote (oid n) (ndur n) ch (grace n) v :: es2, t2)
   end.
 
 (* ---------------------------------------------------------------- measure *)
 
-Definition max_end (N : list (note * bool)) (O : list other) (mx : Z) : Z :=
-  fold_left (fun a o => Z.max a (o_onset o)) O
+Definition max_end (N : list (note * bool)) (Os : list other) (mx : Z) : Z :=
+  fold_left (fun a o => Z.max a (o_onset o)) Os
     (fold_left (fun a p => Z.max a (onset (fst p) + ndur (fst p))) N mx).
 
-Fixpoint lin_voices (first : bool) (vs : list (Z * list note)) (O : list other) (pos mx : Z)
+Fixpoint lin_voices (first : bool) (vs : list (Z * list note)) (Os : list other) (pos mx : Z)
   : list elem * Z * Z :=
   match vs with
   | [] => ([], pos, mx)
   | (v, l) :: r =>
       let N := tag_chords None (sort_notes l) in
-      let O' := if first then O else [] in
-      let (es, p) := mwv v N O' pos pos in
-      match lin_voices false r O p (max_end N O' mx) with
+      let Os' := if first then Os else [] in
+      let (es, p) := mwv v N Os' pos pos in
+      match lin_voices false r Os p (max_end N Os' mx) with
       | (es', p', mx') => (es ++ es', p', mx')
       end
   end.
@@ -220,14 +220,14 @@ Definition voices_of (ns : list note) : list (Z * list note) :=
   | _ => sort_voices (rvp (partition_voices ns))
   end.
 
-Definition lin_segment (ns : list note) (O : list other) (pos mx : Z) : list elem * Z * Z :=
-  lin_voices true (voices_of ns) (sort_others O) pos mx.
+Definition lin_segment (ns : list note) (Os : list other) (pos mx : Z) : list elem * Z * Z :=
+  lin_voices true (voices_of ns) (sort_others Os) pos mx.
 
 Fixpoint lin_segs (segs : list (list note * list other)) (pos mx : Z) : list elem * Z * Z :=
   match segs with
   | [] => ([], pos, mx)
-  | (ns, O) :: r =>
-      match lin_segment ns O pos mx with
+  | (ns, Os) :: r =>
+      match lin_segment ns Os pos mx with
       | (es, p, m) => match lin_segs r p m with (es', p', m') => (es ++ es', p', m') end
       end
   end.
@@ -369,7 +369,8 @@ Fixpoint join_tab (pl : list (Z * Q * Q)) (tab : list (Z * (Z * bool * bool))) :
   | [] => Some []
   | (id, o, d) :: r =>
       match zlookup id tab, join_tab r tab with
-      | Some (p, stop, start), Some w => Some ((p, o, d, stop, start) :: w)
+      | Some (p, stop, start), Some w =>
+          Some (if p <? 0 then w else (p, o, d, stop, start) :: w)   (* rests carry pitch -1 *)
       | _, _ => None
       end
   end.
